@@ -320,6 +320,14 @@ class Schema(dict, metaclass=LogicalMeta):
         context = self.__parser__.make_context(force_error=True)
         value = field.parse_value(value, context=context)
 
+        if unprovided(value) and not field.property:
+            # the value was dropped by the field's on_error policy: the field becomes absent
+            # (never store the `unprovided` marker as a value)
+            if field.name in self:
+                super().__delitem__(field.name)
+            self.__dict__.pop(field.attname, None)
+            return
+
         if field.property:
             if callable(setter):
                 # @property.fset
